@@ -405,6 +405,32 @@ def check_scorer(ctx, pkg, name, width, inner, mode):
                 n_cast += 1
                 if e.data["dtype"] != "float" and not says_integer(list(e.facts)):
                     early.setdefault(e.loc(), e)
+        # ... and no VALUE of the cuts is compared before that either: `cuts < 0` on an array of strings, dates or objects
+        # raises numpy's TypeError, not the ValueError the property promises for "not an integer array".  The facts of a
+        # path are in the order they were decided: a comparison of cut values decided before the dtype is known is early.
+        if mode != "shape-known":
+            early_cmp = None
+            for p in paths:
+                seen = []
+                for c, v in p.facts:
+                    seen.append((c, v))
+                    if says_integer(seen):
+                        break
+                    leaves, todo = [], [c]
+                    while todo:
+                        x = todo.pop()
+                        if x.t[0] in ("and", "or"):
+                            todo.extend([x.t[1], x.t[2]])
+                        elif x.t[0] in ("not", "any", "all"):
+                            todo.append(x.t[1])
+                        else:
+                            leaves.append(x)
+                    if any(x.t[0] == "cmp" and ckey in atoms_of(x.t[2]) and not any(a.kind == "app" and a.args and a.args[0] in ("ndim", "freedim", "len", "size", "dim") for a in atoms_of(x.t[2], deep=False).values()) for x in leaves):
+                        early_cmp = (p, c)
+                        break
+                if early_cmp:
+                    break
+            ctx.check(early_cmp is None, "C13.c CHECK-COMPLETE", f"{name}|{mode}|compare-before-dtype-check", loc, "no value of the cuts is compared before their dtype has been tested (a comparison on a non-numeric array raises TypeError instead of the promised ValueError)", found=(repr(early_cmp[1])[:120] if early_cmp else "dtype first"), expected="the integer-dtype test dominates every comparison of cut values")
         # the spacing test is decided on SIGNED differences: for cuts of an unsigned integer dtype (which the dtype test
         # admits) cuts[:, j+1] - cuts[:, j] wraps around to a huge positive number for a decreasing row, and the row is
         # scored silently.  Accepted: the operand of np.diff went through a cast to a signed integer type; a cast of the
